@@ -4,11 +4,11 @@ import symlib
 from symlib import *
 
 ID = "C16"
-COQ_FILES = symlib.COQ_FILES + ["Proofs/SymbolsSpec.v", "Props/C16.v", "Props/C16_repaired.v"]
+COQ_FILES = symlib.COQ_FILES + ["Proofs/SymbolsSpec.v", "Proofs/SymbolsSeq.v", "Props/C16.v", "Props/C16_repaired.v"]
 PROPS = "Props/C16_repaired.v" if REPAIRED else "Props/C16.v"
-THEOREMS_ASIS = ["C16_collision_iff_reported", "C16_partition_equiv", "C16_import_commutes", "C16_wf_universe_b_sound",
+THEOREMS_ASIS = ["C16_collision_iff_reported", "C16_reported_eq_has_collision", "C16_partition_equiv", "C16_import_commutes", "C16_wf_universe_b_sound",
                  "C16_lock_discipline_refuted", "C16_model_race_witness",
-                 "C16_lock_discipline_imports", "C16_model_drf_imports"]
+                 "C16_lock_discipline_imports", "C16_model_drf_imports", "C16_seq_refines"]
 THEOREMS_REPAIRED = ["C16r_lock_discipline", "C16r_model_drf"]
 THEOREMS = THEOREMS_REPAIRED if REPAIRED else THEOREMS_ASIS
 AXIOMS_OK = []
